@@ -15,7 +15,7 @@ MSG_EVENTS = ["open_valid", "open_hold0", "open_badver", "open_badas", "open_hol
 ENV_EVENTS = ["peer_close", "peer_reset", "timer", "advance", "stop", "start", "read_state"]
 
 CRT = [5, 20, 29, 30, 31, 60]
-IDLE_HOLD = [1, 10, 30]
+IDLE_HOLD = [0, 1, 10, 30]
 HOLD = [0, 3, 4, 9, 30, 90, 180, 65535]
 ASNS = [1, 64512, 65535, 65536, 23456, 4200000000, 2 ** 32 - 1]
 
@@ -74,6 +74,9 @@ SCENARIOS = [
     [("reach", "OpenConfirm"), ("fire", 2), ("ev", "keepalive"), ("fire", 3)],
     # peer closes in OpenSent, retry fails
     [("reach", "OpenSent"), ("ev", "peer_close"), ("wait", 2), ("conn_refuse",), ("wait", 4)],
+    # operator stop and start, the first attempt after the start fails
+    [("reach", "Established"), ("ev", "stop"), ("cdone",), ("ev", "start"), ("conn_refuse",), ("wait", 4)],
+    [("ev", "stop"), ("ev", "start"), ("conn_refuse",), ("wait", 4)],
     # a session that existed, then one or two failed reconnects
     [("reach", "Established"), ("ev", "peer_reset"), ("wait", 2), ("conn_refuse",), ("wait", 2), ("conn_refuse",), ("wait", 4)],
     [("reach", "Established"), ("ev", "notif_other"), ("cdone",), ("wait", 2), ("conn_refuse",), ("wait", 4)],
